@@ -39,6 +39,20 @@ def ensure_driver():
 
 # ----------------------------------------------------------------------------------------------
 # (i) split
+HUGE = [(12120, 600), (24240, 300), (48420, 150), (96780, 75)]     # L*fs is an integer whose float quotient L/dt lands one ulp below it
+
+
+def gen_huge_case(rng, j):
+    """window lengths of millions of samples (hours of data at a high rate): an exact multiple of the time step still counts in full; the snap of
+    L/dt to the integer must be relative, not absolute"""
+    if j < len(HUGE):
+        L, fs = HUGE[j]
+    else:
+        fs = int(rng.choice([75, 150, 300, 600])); L = int(rng.integers(7_000_000 // fs, 9_000_000 // fs))
+    k = L * fs
+    return dict(kind="split", stream="huge", fs=frac_s(Fraction(fs)), L=frac_s(Fraction(L)), n=k + int(rng.integers(1, 9)), three=False)
+
+
 def gen_split_case(rng, i):
     stream = ["decimal", "multiple", "rational", "dtdecimal", "error", "small"][i % 6]
     if rng.random() < 0.6:
@@ -243,7 +257,7 @@ def gen_pre_case(rng, i):
         lens.append(n)
     return dict(kind="pre", fs=fs, L=None if L is None else frac_s(L), lens=lens, detrend=dmode, orient=orient, fc=list(fc),
                 fc_tuple=isinstance(fc, tuple), deg0=[float(rng.choice([0.0, 30.0, rng.uniform(0, 360)])) for _ in range(nrec)],
-                sseed=int(rng.integers(0, 2 ** 31)))
+                sseed=int(rng.integers(0, 2 ** 31)), dt_corrected=bool(i % 5 == 3))
 
 
 def build_records(case):
@@ -255,7 +269,15 @@ def build_records(case):
     for n, d0 in zip(case["lens"], case["deg0"]):
         t = np.arange(n) * dt
         comps = [r.normal(0, 1, n) + r.uniform(-3, 3) + r.uniform(-2, 2) * t + np.sin(2 * np.pi * r.uniform(0.5, 5) * t) for _ in range(3)]
-        recs.append(SeismicRecording3C(*[TimeSeries(c, dt) for c in comps], degrees_from_north=d0))
+        if case.get("dt_corrected"):
+            # the record was created with a nominal time step (as read from a header) and the true one is assigned afterwards through the public
+            # attribute: every later step (filter design, split) must use the time step the record has NOW
+            rec = SeismicRecording3C(*[TimeSeries(c, dt * 2.0) for c in comps], degrees_from_north=d0)
+            for x in (rec.ns, rec.ew, rec.vt):
+                x.dt_in_seconds = dt
+            recs.append(rec)
+        else:
+            recs.append(SeismicRecording3C(*[TimeSeries(c, dt) for c in comps], degrees_from_north=d0))
     return recs
 
 
@@ -500,6 +522,7 @@ def run(ctx):
     ns_ = ctx.budget(5000, 60000)
     np_ = ctx.budget(500, 5000)
     cases += [gen_split_case(rng, i) for i in range(ns_)]
+    cases += [gen_huge_case(rng, j) for j in range(ctx.budget(2, 8))]
     cases += [gen_pre_case(rng, i) for i in range(np_)]
     lines, spans = [], []
     for c in cases:
